@@ -113,7 +113,7 @@ Qed.
 Theorem parse_field_encodable c f st raw st' v :
   parse_field c f st = Ok (raw, st') -> ctor_field f raw = Ok v -> val_encodable f v.
 Proof.
-  destruct f as [maxv| |tokmax ctormax ne| | |sc| |v6| | | | | |k| |maxc| |en]; cbn [parse_field]; intros H Hc.
+  destruct f as [maxv| |tokmax ctormax ne| | |sc| |v6| | | | | |k| |maxc| |en|]; cbn [parse_field]; intros H Hc.
   - unfold get_uint, as_uint in H.
     destruct (get_unescaped st) as [[t s1]| |]; cbn [bind fst snd] in H; try discriminate.
     destruct (as_int t 10) as [z| |]; cbn [bind fst snd] in H; try discriminate.
@@ -162,6 +162,7 @@ Proof.
     destruct (sigtime_to_posixtime t) as [z| |]; cbn [bind fst snd] in H; try discriminate. inversion H; subst.
     cbn [ctor_field] in Hc. destruct ((z <? 0) || (z >? 4294967295)) eqn:E; try discriminate. inversion Hc; subst.
     cbn [val_encodable]. lia.
+  - destruct v; exact Logic.I.
   - destruct v; exact Logic.I.
 Qed.
 
